@@ -40,6 +40,7 @@ warnings.filterwarnings('ignore', category=SyntaxWarning)
 MRO_FILES = ['netlist.py', 'netlistmixin.py', 'netlistopsmixin.py', 'netlistsimplifymixin.py', 'netfile.py', 'circuit.py']
 CALLBACK_FILES = ['mnacpts.py', 'node.py']
 RAW = {'_elements'}
+RAW_CONTAINERS = {'_elements', 'nodes'}      # dictionaries of the circuit whose item writes change the netlist
 # plain attributes that are part of a circuit's data (constructor arguments that analyses read)
 RAW_ATTRS = {'kind'}
 NOQUERY_BUILTINS = {'hasattr', 'getattr', 'isinstance', 'id', 'type', 'super', 'print', 'issubclass'}
@@ -230,6 +231,7 @@ class Translator:
         self.receiver_discipline()
         self.compute_deps()
         self.cache_mutations()
+        self.env_switches()
         self.transformer_keys()
 
     # -- foreign code that receives the circuit as an argument ---------------------------
@@ -580,7 +582,8 @@ class Translator:
             for q, fi in self.cb.funcs.items():
                 if q in touching:
                     continue
-                if any(c in self.funcs for c in fi.calls) or any(c.startswith('cb:') and c[3:] in touching_names(touching) for c in fi.calls) or fi.escapes:
+                if any(c in self.funcs for c in fi.calls) or any(c.startswith('cb:') and c[3:] in touching_names(touching) for c in fi.calls) \
+                        or fi.escapes or has_event(fi.prog):
                     touching.add(q)
                     changed = True
         self.cb_touching = touching
@@ -776,6 +779,15 @@ class Translator:
             self.public.append(q)
             out = table[q][(True, False)]
             self.op_ok[q] = out is None or not out[1]
+        # public methods of the component / node objects handed out by the circuit (cct.R1.open_circuit(),
+        # cct['2'].rename('7'), ...): they are public operations on the netlist too
+        self.cb_public = [n for n in self.cb_order if not n.startswith('_')]
+        self.cb_ok = {}
+        self.cb_owner = {}
+        for n in self.cb_public:
+            out = table['cb:' + n][(True, False)]
+            self.cb_ok[n] = out is None or not out[1]
+            self.cb_owner[n] = sorted(f.qname for f in self.cbnames[n] if f.qname in self.cb_touching)
         self.ctor_ok = {}
         for q in self.order:
             fi = self.funcs[q]
@@ -1026,6 +1038,49 @@ class Translator:
         ks, d = self.reach(q)
         return ks, d
 
+    # -- process-wide switches (lcapy.state.state.<x>) read by the code that fills the caches ----
+    ANALYSIS_MODULES = ['netlist.py', 'netlistmixin.py', 'netlistopsmixin.py', 'netlistsimplifymixin.py', 'netfile.py', 'subnetlist.py',
+                        'mna.py', 'mnacpts.py', 'current.py', 'voltage.py', 'statespacemaker.py', 'nodalanalysis.py', 'loopanalysis.py',
+                        'circuitgraph.py', 'components.py', 'analysis.py', 'simulator.py', 'node.py', 'nodes.py']
+
+    def env_switches(self):
+        """switches = attributes that State.__init__ sets to a constant / imported default; a switch that is
+        READ in a module whose results end up in a circuit's memoised entries is part of the data those
+        entries were derived from, and nothing invalidates them when it is reassigned"""
+        tree = self.trees.get('state.py')
+        switches = set()
+        if tree is not None:
+            for node in ast.walk(tree):
+                if isinstance(node, ast.FunctionDef) and node.name == '__init__':
+                    for st in ast.walk(node):
+                        if isinstance(st, ast.Assign) and len(st.targets) == 1 and isinstance(st.targets[0], ast.Attribute) \
+                                and is_self(st.targets[0].value) and isinstance(st.value, (ast.Constant, ast.Name)):
+                            switches.add(st.targets[0].attr)
+        reads = []
+        for fname in self.ANALYSIS_MODULES:
+            tree = self.trees.get(fname)
+            if tree is None:
+                continue
+            imported = any(isinstance(n, ast.ImportFrom) and n.module == 'state' and any(a.name == 'state' for a in n.names) for n in ast.walk(tree))
+            if not imported:
+                continue
+            for fn in ast.walk(tree):
+                if isinstance(fn, ast.FunctionDef):
+                    for n in ast.walk(fn):
+                        if isinstance(n, ast.Attribute) and isinstance(n.ctx, ast.Load) and isinstance(n.value, ast.Name) and n.value.id == 'state' \
+                                and n.attr in switches:
+                            reads.append((n.attr, fname, fn.name, n.lineno))
+        self.env_reads = sorted(set(reads))
+        self.env_switch_names = sorted({r[0] for r in reads})
+        # a setter on State that clears the caches would make the reassignment an invalidating mutator: recognise
+        # `@<switch>.setter` definitions in state.py that call cache_clear()/_invalidate (none in the current tree)
+        self.env_invalidating = set()
+        if self.trees.get('state.py') is not None:
+            for fn in ast.walk(self.trees['state.py']):
+                if isinstance(fn, ast.FunctionDef) and any(isinstance(d, ast.Attribute) and d.attr == 'setter' for d in fn.decorator_list):
+                    if any(isinstance(n, ast.Attribute) and n.attr in ('cache_clear', '_invalidate') for n in ast.walk(fn)):
+                        self.env_invalidating.add(fn.name)
+
     # -- a query must not modify, in place, the value it got from a memoised attribute --------
     MUTATING_METHODS = {'remove', 'append', 'extend', 'pop', 'sort', 'clear', 'insert', 'update', 'add', 'discard',
                         'popitem', 'setdefault', 'reverse', 'move_to_end', 'appendleft', 'popleft', '__setitem__', '__delitem__'}
@@ -1229,6 +1284,18 @@ class Translator:
                                           covered=sorted(covered), used={u: used[u] for u in sorted(used)}, missing=missing))
 
 
+def has_event(p):
+    if p is None:
+        return False
+    if p[0] == 'ev':
+        return True
+    if p[0] in ('seq', 'if'):
+        return has_event(p[1]) or has_event(p[2])
+    if p[0] in ('loop', 'alpha'):
+        return has_event(p[1])
+    return False
+
+
 def touching_names(touching):
     return {q.split('.', 1)[1] for q in touching}
 
@@ -1352,7 +1419,7 @@ class FuncTranslator:
             ev = seq(self.expr(t.value), self.expr(t.slice))
             if isinstance(t.value, ast.Attribute) and self.is_recv(t.value.value):
                 a = t.value.attr
-                if a in RAW:
+                if a in RAW_CONTAINERS:
                     return seq(ev, W)
                 if a in CONFIG_WRITES or self.fi.name in CONSTRUCTORS or self.recv != 'self':
                     return ev
@@ -1485,7 +1552,7 @@ class FuncTranslator:
             # raw data containers of the receiver
             if isinstance(f.value, ast.Attribute) and self.is_recv(f.value.value):
                 a = f.value.attr
-                if a in RAW and f.attr in ('pop', 'clear', 'update', 'popitem', 'setdefault', 'move_to_end'):
+                if a in RAW_CONTAINERS and f.attr in ('pop', 'clear', 'update', 'popitem', 'setdefault', 'move_to_end', '_delete'):
                     return seq(argev, W)
                 if a == 'parser' and f.attr == 'parse':
                     if not escapes:
@@ -1590,6 +1657,8 @@ if __name__ == '__main__':
     print('raw sites', T.raw_sites)
     print('raw sites bad', T.raw_sites_bad)
     print('cache mutation sites', T.cache_mutation_sites)
+    print('cb public', {n: T.cb_ok[n] for n in T.cb_public})
+    print('env reads', T.env_reads, T.env_invalidating)
     print('cached sources', T.cached_sources)
     print('local sites', [s for s in T.local_sites])
     print('callbacks', T.cb_order)
